@@ -110,6 +110,9 @@ def argv_desc(draw, classes):
                                   'tdda-last']))
     names = draw(st.lists(st.sampled_from([c['name'] for c in classes]),
                           max_size=2, unique=True))
+    if names and draw(st.integers(0, 5)) == 0:
+        # the same class named twice: its tests run twice, tagged or not
+        names = names + [names[0]]
     if draw(st.integers(0, 9)) == 0:
         # a name that cannot be loaded: an error of the run, with or
         # without the tagged option (not combined with the listing option)
